@@ -582,6 +582,10 @@ class Engine:
                 elif lay == "*":
                     if isinstance(v, TupleV):
                         pos.extend(v.items)
+                    elif isinstance(v, ListV):
+                        from .dom_model import SplatV
+
+                        pos.append(SplatV(v))  # accepted only by models that flatten it (node)
                     else:
                         raise Unsupported("*args of symbolic length")
                 elif lay == "**":
